@@ -526,6 +526,23 @@ func ClassifyReturn(info *types.Info, body ast.Node, ret *ast.ReturnStmt) RetKin
 			}
 			if f.Val && be.Op == token.NEQ || !f.Val && be.Op == token.EQL {
 				if core.IsNil(info, be.Y) && core.SameRef(info, be.X, last) || core.IsNil(info, be.X) && core.SameRef(info, be.Y, last) {
+					// ... unless the variable is re-assigned between the test and the return
+					reassigned := false
+					if obj := core.ObjOf(info, last); obj != nil {
+						ast.Inspect(ifs.Body, func(m ast.Node) bool {
+							if as, ok := m.(*ast.AssignStmt); ok && as.Pos() < ret.Pos() {
+								for _, l := range as.Lhs {
+									if id, ok := l.(*ast.Ident); ok && core.ObjOf(info, id) == obj && as.Tok != token.DEFINE {
+										reassigned = true
+									}
+								}
+							}
+							return true
+						})
+					}
+					if reassigned {
+						return RetMaybe
+					}
 					return RetErr
 				}
 			}
